@@ -6,6 +6,9 @@ use std::{
     task::{Poll, Waker},
 };
 
+#[cfg(feature = "verif")]
+use crate::verif::sync::{Mutex, RwLock};
+#[cfg(not(feature = "verif"))]
 use parking_lot::{Mutex, RwLock};
 use ringbuf::{
     SharedRb,
